@@ -52,8 +52,12 @@ def run_ch_partition(c: CH, part: str, tier: str) -> dict:
             break
     else:
         r = {"verdict": "error", "error": f"worker rc={rc}: {err[-1500:]}"}
-    r.update(check=c.id, partition=part, engine="C")
+    r.update(check=c.id, partition=part, engine="C", allow_empty=c.allow_empty)
     return r
+
+
+SPLIT_DEPTH = {"quick": 0, "thorough": 2}
+SPLIT_WIDTH = 16  # every selector of every harness has at most 16 values
 
 
 def run_k(k: K, tier: str) -> dict:
@@ -138,7 +142,8 @@ def main() -> int:
         rp = f["replay"]
         if a.only and a.only not in rp["func"] and a.only not in rp["module"]:
             continue
-        r = replay_native(rp["module"], rp["func"], rp["args"], {"VERIF_KF_OFF": "1", **rp.get("env", {})})
+        # the listed inputs are selector vectors of the quick-tier decoders
+        r = replay_native(rp["module"], rp["func"], rp["args"], {"VERIF_KF_OFF": "1", "VERIF_TIER": "quick", **rp.get("env", {})})
         if r["outcome"] == "false" and f["label"] in r.get("detail", ""):
             known_lines[f["id"]] = f"KNOWN-FINDING: property={pid} {f['id']}: {f['what']}"
         else:
@@ -156,6 +161,35 @@ def main() -> int:
         for s, part, fut in jobs:
             r = fut.result()
             results.append(r)
+        # 2b. a partition that ran out of time is split on its next selector (and once more if needed); the parent's verdict
+        # is the conjunction of its children (children that fix a value outside the selector's range are empty and dropped); the children replace the parent
+        for depth in range(SPLIT_DEPTH.get(a.tier, 0)):
+            todo = [(i, r) for i, r in enumerate(results)
+                    if r.get("engine") == "C" and r.get("verdict") == "not_confirmed" and r.get("split_depth", 0) == depth]
+            if not todo:
+                break
+            by_id = {s.id: s for s in plan if isinstance(s, CH)}
+            futs = []
+            for i, r in todo:
+                fixed_idx = [int(x.split(":")[0]) for x in r["partition"].split(",") if x]
+                nxt = max(fixed_idx) + 1 if fixed_idx else 0
+                base = r["partition"] + "," if r["partition"] else ""
+                futs.append((i, r, [ex.submit(run_ch_partition, by_id[r["check"]], f"{base}{nxt}:{v}", a.tier) for v in range(SPLIT_WIDTH)]))
+            replaced = {}
+            for i, r, fs in futs:
+                kids = [f.result() for f in fs]
+                keep = []
+                for k in kids:
+                    k["split_depth"] = depth + 1
+                    k["split_of"] = r["partition"]
+                    empty = k.get("verdict") == "confirmed" and k.get("harness_stats", {}).get("oracle", 0) == 0
+                    if not empty:  # a value outside the selector's range: nothing to decide
+                        keep.append(k)
+                if keep:
+                    keep[0]["paths"] = keep[0].get("paths", 0) + r.get("paths", 0)  # the parent's spent effort stays visible
+                    keep[0]["wall_s"] = round(keep[0].get("wall_s", 0) + r.get("wall_s", 0), 2)
+                    replaced[i] = keep
+            results = [x for i, r in enumerate(results) for x in (replaced.get(i) or [r])]
 
     # 3. classify
     n_queries = n_confirmed = n_paths = n_nontrivial = 0
@@ -172,7 +206,9 @@ def main() -> int:
             tag = f"{r['check']}[{r['partition']}]"
             if v == "confirmed":
                 reached = r.get("harness_stats", {}).get("oracle", 0)
-                if r.get("confirmed_paths", 0) < 1 or reached < 1:
+                if reached < 1 and r.get("allow_empty") and r.get("confirmed_paths", 0) >= 1:
+                    n_queries -= 1  # an empty combination of selector values: nothing was to be decided
+                elif r.get("confirmed_paths", 0) < 1 or reached < 1:
                     inconclusive.append(f"{tag}: vacuous (confirmed_paths={r.get('confirmed_paths')}, oracle reached={reached})")
                 else:
                     n_confirmed += 1
